@@ -738,3 +738,59 @@ impl<'a> View<'a> {
 pub(crate) fn difficulty_of(compact: u32) -> U256 {
     compact_to_difficulty(compact)
 }
+
+/// A self-consistent ("re-sealed") verifiable header with freely chosen number, parent total
+/// difficulty, target and epoch: the extension commits to the given parent chain root and the
+/// extra hash commits to the extension, so it passes every check that does not involve an MMR
+/// proof. On an Eaglesong consensus it is mined as well.
+pub(crate) fn forge_vh(
+    consensus: &Consensus,
+    number: u64,
+    parent_td: &U256,
+    compact: u32,
+    epoch: EpochNumberWithFraction,
+    timestamp: u64,
+    parent_hash: Byte32,
+    salt: u64,
+) -> packed::VerifiableHeader {
+    let parent_root = packed::HeaderDigest::new_builder()
+        .children_hash(Byte32::zero())
+        .total_difficulty(parent_td.pack())
+        .start_number(0u64.pack())
+        .end_number(number.saturating_sub(1).pack())
+        .start_epoch(EpochNumberWithFraction::new_unchecked(0, 0, 0).pack())
+        .end_epoch(epoch.pack())
+        .start_timestamp(salt.pack())
+        .end_timestamp(timestamp.pack())
+        .start_compact_target(compact.pack())
+        .end_compact_target(compact.pack())
+        .build();
+    seal_vh(consensus, number, parent_root, compact, epoch, timestamp, parent_hash)
+}
+
+pub(crate) fn seal_vh(
+    consensus: &Consensus,
+    number: u64,
+    parent_root: packed::HeaderDigest,
+    compact: u32,
+    epoch: EpochNumberWithFraction,
+    timestamp: u64,
+    parent_hash: Byte32,
+) -> packed::VerifiableHeader {
+    let ext: packed::Bytes = parent_root.calc_mmr_hash().as_bytes().pack();
+    let block = BlockBuilder::default()
+        .parent_hash(parent_hash)
+        .number(number.pack())
+        .epoch(epoch.pack())
+        .compact_target(compact.pack())
+        .timestamp(timestamp.pack())
+        .extension(Some(ext))
+        .build();
+    let block = mine(consensus, block);
+    packed::VerifiableHeader::new_builder()
+        .header(block.data().header())
+        .uncles_hash(block.calc_uncles_hash())
+        .extension(Pack::pack(&block.extension()))
+        .parent_chain_root(parent_root)
+        .build()
+}
